@@ -70,6 +70,28 @@ def r1_reverse_lookup(ctx):
     true_paths = 0
     WANT = {"rook": {"rooks", "queens"}, "bishop": {"bishops", "queens"}, "knight": {"knights"}, "king": {"kings"}, "pawn": {"pawns"}}
 
+    def lookup_tests(d):
+        """several lookups OR-ed into one test: `(knights & knight_attacks) | (pawns & pawn_attacks) | .. != 0`"""
+        if not (d[0] == "bin" and d[1] in ("Ne", "Eq") and any(x[0] == "c" and x[1] == 0 for x in (d[2], d[3]))):
+            return None
+        body = d[3] if d[2][0] == "c" else d[2]
+        terms = []
+        def flat(t):
+            if t[0] == "bin" and t[1] == "BitOr":
+                flat(t[2]); flat(t[3])
+            else:
+                terms.append(t)
+        flat(body)
+        if len(terms) < 2:
+            return None
+        out = []
+        for tm in terms:
+            lt = lookup_test(("bin", d[1], tm, ("c", 0, "u64", None), "bool"))
+            if lt is None:
+                return None
+            out.append(lt)
+        return out
+
     def lookup_test(d):
         """(kind, accessor names, players, square/occupancy ok, table path) when d is `lookup & piece set != 0`"""
         if not (d[0] == "bin" and d[1] in ("Ne", "Eq") and any(x[0] == "c" and x[1] == 0 for x in (d[2], d[3]))):
@@ -130,6 +152,17 @@ def r1_reverse_lookup(ctx):
                     continue
                 except Unfoldable:
                     pass
+            lts = lookup_tests(d)
+            if lts is not None:
+                # one test over several attacker kinds: a miss rules all of them out, a hit means one of them attacks
+                hit = truth if d[1] == "Ne" else not truth
+                for (kind, names, players, geo_ok, path) in lts:
+                    found.setdefault(kind, set()).add((frozenset(names), frozenset(players), colour if kind and "pawn" in kind else None, geo_ok, path))
+                    k2 = "pawn" if kind and "pawn" in kind else kind
+                    consulted[k2] = "returned" if b == -1 else ("hit" if hit else "miss")
+                    if hit and b != -1:
+                        last_positive = k2
+                continue
             lt = lookup_test(d)
             if lt is not None:
                 kind, names, players, geo_ok, path = lt
@@ -158,6 +191,11 @@ def r1_reverse_lookup(ctx):
             if missing:
                 path_problems.append(("false-without-" + "+".join(missing), "a path answers `not attacked` without consulting the %s table(s)%s" % (
                     ", ".join(missing), (" - it is taken when " + " and ".join(others)) if others else "")))
+    if None in found:
+        # a lookup in a table this rule cannot name (an array of tables indexed by the colour, a table passed in):
+        # which attacker kind it stands for is not read here
+        ctx.lost(rid, "_is_square_in_check uses an attack table that is selected by a computation (not one of the six named tables)")
+        return
     if not found:
         # not one `lookup & pieces != 0` test on any path: the function decides some other way (a table of
         # (attack set, pieces) pairs reduced with any(), a fold ...). Are the tables consulted at all?
@@ -270,6 +308,11 @@ def r2_colours(ctx):
         if not (t[0] == "call" and t[1] == BB + "_is_square_in_check"):
             extra = ["%s is %s" % (show(d)[:80], "true" if c != ("in", (0,)) else "false") for (d, c, b, ty) in pe.conds if not (d[0] == "bin" and d[1] == "Eq" and ("param", 2) in (d[2], d[3]))]
             shortcuts.append("returns %s when %s" % (show(t)[:40], " and ".join(extra) or "-"))
+    if shortcuts and not any(pe.ret()[0] == "call" and pe.ret()[1] == BB + "_is_square_in_check" for pe in ps):
+        # no path ends in the reverse lookup call at all: the function is written some other way (the lookup's result
+        # goes through a temporary, an Option, a helper)
+        ctx.lost(rid, "_is_in_check_by_bits: paths that end in `_is_square_in_check(..)`")
+        return
     ctx.ob(rid, "_is_in_check_by_bits|every-answer-from-the-lookup", not shortcuts,
            "" if not shortcuts else "_is_in_check_by_bits answers without the reverse attack lookup: %s" % "; ".join(sorted(set(shortcuts))[:2]), ctx.where(f), sample={"paths": len(ps)})
     ps = [pe for pe in ps if pe.ret()[0] == "call" and pe.ret()[1] == BB + "_is_square_in_check"]
@@ -279,6 +322,9 @@ def r2_colours(ctx):
         for (d, c, b, ty) in pe.conds:
             if d[0] == "bin" and d[1] == "Eq" and ("param", 2) in (d[2], d[3]):
                 white = c != ("in", (0,))
+            if d == ("param", 2) and c[0] in ("in", "notin") and c[1] in ((0,), (1,)):
+                # `match colour { WHITE => .., _ => .. }`: a switch on the colour itself (WHITE = 0)
+                white = (c[1] == (0,)) == (c[0] == "in")
         if white in seen_colours:
             continue
         seen_colours.add(white)
@@ -287,6 +333,8 @@ def r2_colours(ctx):
         ok = False
         if t[0] == "call" and t[1] == BB + "_is_square_in_check" and len(t[2]) == 4:
             col, passive, sq, occ = t[2]
+            if sq[0] == "call" and sq[1].endswith("Option::unwrap_or") and sq[2][0][0] == "agg" and sq[2][0][2].endswith("::Some") and sq[2][0][3]:
+                sq = sq[2][0][3][0]      # `Some(square).unwrap_or(64)`: the square
             P = lambda n: ("f", ("*", ("param", 1)), n)
             sq_ok = sq[0] == "call" and sq[1].endswith("trailing_zeros") and sq[2][0][0] == "call" and sq[2][0][1] == PS + "kings" and sq[2][0][2][0] in (P(me), ("&", P(me)))
             pas_ok = passive in (P(other), ("&", P(other)))
@@ -326,8 +374,14 @@ def r3_evaluator(ctx):
             draws += 1
             if not (r[0] == "call" and r[1].endswith("::draw_score")):
                 bad.append("move-less, not mate: returns %s" % show(r))
-    ok = not bad and mates == 2 and draws >= 1
-    ctx.ob(rid, "mate-needs-check-and-no-moves", ok, "" if ok else "; ".join(bad) or "expected two mate branches and a draw branch (found %d/%d)" % (mates, draws), ctx.where(f),
+    # (how many paths carry a mate score depends on how the match is written - an exhaustive match, a debug assertion
+    # before it - and is no finding; a wrong path is)
+    ok = not bad and mates >= 1 and draws >= 1
+    if not bad and not (mates >= 1 and draws >= 1):
+        ctx.lost(rid, "the mate and the draw branch of Heuristic::evaluate (found %d mate / %d move-less draw paths)" % (mates, draws))
+        ok = None
+    if ok is not None:
+      ctx.ob(rid, "mate-needs-check-and-no-moves", ok, "" if ok else "; ".join(bad) or "expected two mate branches and a draw branch (found %d/%d)" % (mates, draws), ctx.where(f),
            sample={"mate_paths": mates, "stalemate_paths": draws})
     # converse: whenever there is no legal move and the side to move is in check, the answer is a mate score - also
     # on paths that never looked at one of the two facts (a draw rule hoisted in front of the terminal branch)
